@@ -222,7 +222,7 @@ def _load_compilers():
 
             # Check if the user is redefining an alias as a compiler.
             # Warn because options may be lost.
-            if compiler.alias_of:
+            if compiler.alias_of is not None:
                 log.warning(
                     f"definition of {name} in .cbi/config overrides alias.",
                 )
@@ -303,14 +303,14 @@ class ArgumentParser:
             return
 
         # If a compiler is not an alias, use its configuration directly.
-        if not _compilers[self.name].alias_of:
+        if _compilers[self.name].alias_of is None:
             self.compiler = _compilers[self.name]
             log.info(f"Compiler '{self.name}' recognized.")
 
         # If a compiler is an alias of another, resolve the alias.
         # An alias may itself be an alias, so we may need to iterate.
         alias_chain = [self.name]
-        while _compilers[alias_chain[-1]].alias_of:
+        while _compilers[alias_chain[-1]].alias_of is not None:
             alias = _compilers[alias_chain[-1]].alias_of
             if alias in alias_chain:
                 log.error(f"Compiler '{self.name}' alias results in a loop.")
